@@ -432,11 +432,20 @@ func TestC08(t *testing.T) {
 				n := rapid.IntRange(10, 40).Draw(rt, "listLen")
 				elem := rapid.SampledFrom([]string{"a", "a", "x", "1"}).Draw(rt, "elem")
 				last := rapid.SampledFrom([]string{"b", "a", "x"}).Draw(rt, "last")
-				pat := "f(" + strings.Repeat("..., "+elem+", ", k) + "..., " + last + ")"
+				rep := strings.Repeat("..., "+elem+", ", k)
 				meta := ""
 				if elem == "x" || last == "x" {
 					meta = "var x expression\n"
 				}
+				if elem == "x" && rapid.Bool().Draw(rt, "distinctMetavars") {
+					// a different metavariable behind every elision
+					rep, meta = "", "var x expression\n"
+					for i := 0; i < k; i++ {
+						rep += fmt.Sprintf("..., x%d, ", i)
+						meta += fmt.Sprintf("var x%d expression\n", i)
+					}
+				}
+				pat := "f(" + rep + "..., " + last + ")"
 				cs.Patch = []byte("@@\n" + meta + "@@\n-" + pat + "\n+g()\n")
 				args := make([]string, n)
 				for i := range args {
@@ -451,7 +460,7 @@ func TestC08(t *testing.T) {
 					cs.Patch = []byte("@@\n" + meta + "@@\n-{\n" + strings.Repeat("-...\n-"+elem+"()\n", k) + "-...\n-" + last + "()\n-}\n+g()\n")
 					cs.Target = "package a\n\nfunc h() {\n\t{\n\t\t" + strings.Join(args, "()\n\t\t") + "()\n\t}\n}\n"
 				default:
-					cs.Patch = []byte("@@\n" + meta + "@@\n-[]int{" + strings.Repeat("..., "+elem+", ", k) + "..., " + last + "}\n+nil\n")
+					cs.Patch = []byte("@@\n" + meta + "@@\n-[]int{" + rep + "..., " + last + "}\n+nil\n")
 					cs.Target = "package a\n\nvar v = []int{" + strings.Join(args, ", ") + "}\n"
 				}
 			}
